@@ -15,7 +15,7 @@ From DDS Require Import Base.Bytes L0_Hash.PyVal L1_Args.ArgCtx L3_Sig.Program L
 Import ListNotations.
 """
 
-WHOLE_TREE_PREPASS = "false"     # model switch: pinned indirect pre-pass (F08) vs repaired
+WHOLE_TREE_PREPASS = "true"     # model switch: pinned indirect pre-pass (F08) vs repaired
 
 
 def style_coq(act):
